@@ -180,7 +180,11 @@ def make_font(rng, version):
     npal = len(PALETTE0)
     two_palettes = rng.random() < 0.3
     # the second palette differs from the first in EVERY entry (black included: rotating the channels would leave it black)
-    palettes = [PALETTE0] + ([[((c[2], c[0], c[1], 1.0) if c[:3] != (0, 0, 0) else (0.9, 0.2, 0.5, 1.0)) for c in PALETTE0]] if two_palettes else [])
+    # half of the fonts: some palette entries are translucent (the entry's own alpha multiplies the paint's); the second palette keeps each
+    # entry's alpha, so that "the palette variable carries the colour, the opacity attribute the alpha" (what svg.py writes) is exact under both
+    alphas = [1.0, 1.0, 0.5, 1.0, 0.25, 0.8] if rng.random() < 0.5 else [1.0] * npal
+    pal0 = [(c[0], c[1], c[2], a) for c, a in zip(PALETTE0, alphas)]
+    palettes = [pal0] + ([[((c[2], c[0], c[1], c[3]) if c[:3] != (0, 0, 0) else (0.9, 0.2, 0.5, c[3])) for c in pal0]] if two_palettes else [])
     if version == 0:
         glyphs = {g: [(rng.choice(LAYER_GLYPHS), rng.choice(list(range(npal)) + [0xFFFF])) for _ in range(rng.randint(1, 4))] for g in "ABC"}
         font["COLR"] = builder.buildCOLR(glyphs, version=0)
@@ -287,7 +291,8 @@ def check_font(ctx, res, font, desc, two_palettes, case_id):
                             {"site": "colr2svg-var", "case": case_id})
             if two_palettes:
                 # the same comparison under the OTHER palette: every palette entry must have become var(--colorN, c) with the right N
-                pal1 = [(c.red / 255, c.green / 255, c.blue / 255, c.alpha / 255) for c in font["CPAL"].palettes[1]]
+                # the variable substitutes the entry's colour; its alpha is already in the opacity attribute (equal in both palettes, see make_font)
+                pal1 = [(c.red / 255, c.green / 255, c.blue / 255, 1.0) for c in font["CPAL"].palettes[1]]
                 a1 = render.ColrScene(font, g, apply_clip=False, palette_index=1)
                 b1 = render.SvgScene.fromstring(text, palette=pal1)
                 _, _, bad1 = render.compare_scenes(a1, b1, to_vb, pts, 3.0, 3.0 / s, tol=0.06)
